@@ -103,4 +103,16 @@ theorem C16_source_label_cell (ctx : KCtx) (cell : Option KVal) (h : TreepathCel
          | _ => some (cell, .inr ())) :=
   source_cell_treepath ctx cell h
 
+/-- REFINEMENT, from the source read today: every history of clearing, setting and reading the `?`-leaf label — the ones
+    that raise AnnotationError included, after which the history goes on — runs on the translated `_storage.py` functions
+    with exactly the abstract machine's sequence of errors and ends in a cell that stands for the abstract label (by
+    induction over the history, Source/Storage.lean) -/
+theorem C16_source_label_history (ops : List LabelOp) (c : Option KVal) (h : LeafCellOk c) :
+    ∃ c', runLabelImpl ops c = some (c', (runLabelSpec ops (tpOfCell c)).2) ∧ tpOfCell c' = (runLabelSpec ops (tpOfCell c)).1 :=
+  source_cell_treepath_history ops c h
+
+/-- a non-trivial history: label a leaf, read it, try to label on top (error), clear, read without a label (error) -/
+example : runLabelSpec [.set 0 "T", .get, .set 1 "T", .clear, .get] none = (none, [false, false, true, false, true]) := by
+  simp [runLabelSpec, LabelOp.spec]
+
 end JV
